@@ -6,3 +6,4 @@ import "verif/internal/vf"
 var Registry = map[string]func(*vf.Run){}
 
 func reg(id string, fn func(*vf.Run)) { Registry[id] = fn }
+
